@@ -161,6 +161,7 @@ class FlowMixin:
                 cur = [(s0, 0)]
                 for k, it in enumerate(items):
                     nxt = []
+                    iter_seen = set()  # states are only merged with states of the same iteration
                     for s1, _ in cur:
                         self.event(s1, fr, "loop-iter", n, k)
                         for s2, r in self.assign(n.target, it, s1, fr, n):
@@ -169,6 +170,8 @@ class FlowMixin:
                                 continue
                             for kind, s3, v in self.exec_block(n.body, s2, fr):
                                 if kind in ("next", "continue"):
+                                    if self._loop_dup(s3, fr, iter_seen, k):
+                                        continue
                                     nxt.append((s3, 0))
                                 elif kind == "break":
                                     self.event(s3, fr, "loop-break", n, k)
